@@ -45,6 +45,8 @@ def main():
     from pyvc.engine import Engine
     mod = importlib.import_module('contracts.%s' % prop)
     task = [t for t in mod.TASKS if t.name == tname][0]
+    from pyvc.api import dec_case
+    case = dec_case(case)
     sampler = Sampler(seed)
     res = {'evaluations': 0, 'obligations_evaluated': 0, 'failures': [], 'distinct': 0, 'samples': [], 'error': None}
     seen = set()
